@@ -420,6 +420,50 @@ def monitor_c10(script, out):
     return None
 
 
+def monitor_heap(script, out):
+    """What the future event set owes the runtime whatever breaks ties (C01's time-order / exactly-once / len clauses
+    and C02's clock clauses, as seen through Runtime<App>): in each of the three runs dispatch times never decrease
+    from the start time on, now() in a handler is the scheduled timestamp, every accepted add_event is dispatched
+    exactly once at its time or returned as remaining, add_event is accepted iff its time is not before now(),
+    event_count / num_events_remaining count exactly those events, the unlimited run leaves nothing behind."""
+    m = monitor_c02(script, out)
+    if m:
+        return m
+    s, bl = parse_blocks(script, out)
+    for name in ("U", "A", "B"):
+        f = bl[name]["final"]
+        if f["count"] != len(f["log"]):
+            return "%s: event_count %d but %d events were handled" % (name, f["count"], len(f["log"]))
+    if bl["U"]["final"]["rem"]:
+        return "unlimited run left %s undelivered" % bl["U"]["final"]["rem"]
+    # paused states of the stepped run: counters and the undelivered multiset
+    B = bl["B"]["final"]
+    for st in bl["B"]["steps"]:
+        if st["op"][0] == 3:
+            continue
+        d = st["dispatched"]
+        if d > len(B["log"]):
+            return "dispatched counter %d exceeds the %d handled events" % (d, len(B["log"]))
+        pending = ms_sub(ms(accepted(B["adds"][:st["nadds"]])), ms(handled(B["log"][:d])))
+        if pending is None:
+            return "paused after %d events: a handled event was not scheduled" % d
+        if st["remaining"] != sum(pending.values()):
+            return "paused after %d events: len() = %d, undelivered events %d" % (d, st["remaining"], sum(pending.values()))
+        if any(t < st["now"] for (t, _) in pending):
+            return "paused at %d with an undelivered event before that time: %s" % (st["now"], sorted(pending))
+    return None
+
+
+def oracle_labels(script, out):
+    """The labels the implementation dispatched in its three runs (second pass input of the heap model)."""
+    s, bl = parse_blocks(script, out)
+    extra = [0]
+    for name in ("U", "A", "B"):
+        lg = bl[name]["final"]["log"]
+        extra += [len(lg)] + [l for (l, _) in lg]
+    return list(script) + extra
+
+
 # ----------------------------------------------------------------------------- reference interpreter (generators only)
 class RefRt:
     """The repaired semantics, used by the generators to aim limits, cuts and adds; never by a monitor."""
